@@ -191,12 +191,13 @@ def mkDef (f : Fun) (S : FS) : Var × FS :=
   | some d => (d.res, S)
   | none => (S.next, { next := S.next + 1, defs := S.defs ++ [⟨S.next, .none, f⟩], B := setB S.B S.next (resBnd S.B f) })
 
-/-- `Convert2Var(affine expression)` after `sort_terms` -/
+/-- `Convert2Var(affine expression)`: the terms stay in flattening order, unmerged (`is_variable` / `is_constant` and the
+expression-map key of the LinearFunctionalConstraint see the raw terms) -/
 def aff2varL (l : Lin) (c0 : Rat) (S : FS) : Var × FS :=
   match l with
   | [(c, v)] => if c = 1 ∧ c0 = 0 then (v, S) else mkDef (.affine [(c, v)] c0) S
   | l => mkDef (.affine l c0) S
-def aff2var (p : Lin × Rat) (S : FS) : Var × FS := aff2varL (normLin p.1) p.2 S
+def aff2var (p : Lin × Rat) (S : FS) : Var × FS := aff2varL p.1 p.2 S
 
 /-- `PreprocessConstraint(ConditionalConstraint)`: a body whose first coefficient (after sorting) is negative is negated
 together with the comparison (`IsNormalized` / `negate`); for `==` only the terms and the right-hand side are negated -/
@@ -211,6 +212,9 @@ the first coefficient: of the re-sorted terms in that case, of the terms in flat
 def needsSort : Lin → Bool
   | [] => false
   | (c, v) :: t => c == 0 || t.any (fun p => p.2 == v) || needsSort t
+
+/-- body of a comparison after `lhs.sort_terms()` -/
+def condBody (raw : Lin) : Lin := if needsSort raw then normLin raw else raw
 
 def leadNeg (raw : Lin) : Bool :=
   match (if needsSort raw then normLin raw else raw) with
@@ -264,7 +268,7 @@ def flatL : LE → FS → Var × FS
   | .cmp k a b, S =>
     let r1 := flatN a S
     let r2 := flatN b r1.2
-    mkDef (normCmp (leadNeg (r1.1.1 ++ negLin r2.1.1)) k (normLin (r1.1.1 ++ negLin r2.1.1)) (r2.1.2 - r1.1.2)) r2.2
+    mkDef (normCmp (leadNeg (r1.1.1 ++ negLin r2.1.1)) k (condBody (r1.1.1 ++ negLin r2.1.1)) (r2.1.2 - r1.1.2)) r2.2
   | .and ls, S =>
     let r1 := flatLs ls S
     mkDef (.and r1.1) r1.2
